@@ -229,6 +229,12 @@ func (d *Driver) handleCallbacks(
 
 		return d.executeCallback(r.i, r.callbacks, r.b, r.fb, timeout)
 	case <-ctx.Done():
+		// don't leave the reading goroutine behind: it may be in the middle of a read and would
+		// take output that belongs to the next operation, or block for ever handing over a result
+		// nobody waits for; it stops at its next look at the context (c is closed when it does)
+		for range c { //nolint: revive
+		}
+
 		return nil, fmt.Errorf("%w: timeout handling callbacks", util.ErrTimeoutError)
 	}
 }
